@@ -140,6 +140,8 @@ struct Event {
     // (slots, then strides) of that method's offsets (fault: header generated
     // from other registrations)
     int per_method = 0;
+    int fresh_gen = 0; // a new generator object for this call (else the one
+                       // that lives as long as the simulated process)
     int stale = 0;
     int ppos = 0;
     long long pdelta = 0;
